@@ -280,7 +280,7 @@ func (m *monitor) judgeDelete(ev *sim.Event, after []revInfo, limit int64, hasLi
 	}
 	if limit == 0 {
 		m.add("O4-gc-with-history-limit-zero", fmt.Sprintf("%s although revisionHistoryLimit is 0 (garbage collection disabled)", ev.Short()), before)
-	} else if int64(len(before)) <= limit+1 {
+	} else if int64(len(before))-1 <= limit { // written so that limit+1 cannot overflow
 		m.add("O4-gc-within-history-limit", fmt.Sprintf("%s although only %d revisions exist with revisionHistoryLimit %d (needs more than limit+1)", ev.Short(), len(before), limit), before)
 	}
 	if m.curIdentity == "" {
